@@ -6,6 +6,7 @@
 (*   Setup     dst {fmt w h stride off hc clip am[]} src/mask {p hc cs cc clip} dbuf abuf sbuf  *)
 (*   Fill      bpp stride off x y w h v ret after                                               *)
 (*   Blt       sbpp dbpp sstride dstride soff doff sx sy dx dy w h ret after safter             *)
+(*   BltIn     (as Blt, without safter) pixman_blt within the destination buffer                 *)
 (*   FillBoxes api op col boxes ret after aafter ref                                            *)
 (*   Region    rq ret rects                                                                     *)
 (*   Draw      api op rq xoff yoff shapes after aafter                                          *)
@@ -79,6 +80,15 @@ TBlt ==
               ev.sx, ev.sy, ev.dx, ev.dy, ev.w, ev.h, ev.ret)
     /\ l' = l + 1
 
+TBltIn ==
+    /\ l <= TraceLen /\ TraceLog[l].e = "BltIn"
+    /\ LET ev == TraceLog[l] IN
+       /\ mem' = [mem EXCEPT !.dst = ev.after]
+       /\ BltInPlace([bpp |-> ev.sbpp, stride |-> ev.sstride, off |-> ev.soff],
+                     [bpp |-> ev.dbpp, stride |-> ev.dstride, off |-> ev.doff],
+                     ev.sx, ev.sy, ev.dx, ev.dy, ev.w, ev.h, ev.ret)
+    /\ l' = l + 1
+
 BoxesOf(ev) ==
     IF ev.api = "rects"
     THEN [i \in DOMAIN ev.boxes |-> <<ev.boxes[i][1], ev.boxes[i][2],
@@ -144,6 +154,6 @@ TDraw ==
              /\ Deviation("C03-raster-ignores-clip", l)
     /\ l' = l + 1
 
-TNext == TReset \/ TSetup \/ TFill \/ TBlt \/ TFillBoxes \/ TRegion \/ TDraw
+TNext == TReset \/ TSetup \/ TFill \/ TBlt \/ TBltIn \/ TFillBoxes \/ TRegion \/ TDraw
 TSpec == TInit /\ [][TNext]_vars
 =============================================================================
